@@ -247,6 +247,9 @@ impl<'a> ValueGen<'a> {
 						}
 					}
 					best
+				} else if branches.len() > 60 && rng.coin() {
+					// the ends of the range and the place where the index needs a second byte
+					*rng.pick(&[branches.len() - 1, 63.min(branches.len() - 1), 64.min(branches.len() - 1), 65.min(branches.len() - 1), 0])
 				} else {
 					rng.below(branches.len())
 				};
